@@ -19,6 +19,7 @@ def c08Op := labelledRenderOp fun k =>
   if k == "ISOLATION" then some "render-changed-the-callers-variables"
   else if k == "ARGS-ONLY" then some "render-output-depends-on-the-caller"
   else if k == "FOR-AS" then some "render-for-iterations-are-not-independent-renders"
+  else if k == "NAME-SCOPE" then some "the-partial-name-is-evaluated-in-the-callers-scope"
   else if k == "DYN-NAME" then some "a-tag-with-a-variable-name-uses-the-partial-named-now" else none
 /-- `c07r`: a path case labelled by the harness's reference resolution of the path -/
 def c07rOp := labelledRenderOp fun k =>
